@@ -520,6 +520,9 @@ pub fn now() -> usize {
 pub fn set_monitor(m: Monitor) {
     lock().monitor = Some(m);
 }
+pub fn clear_monitor() {
+    lock().monitor = None;
+}
 pub fn record_ops(on: bool) {
     lock().record_ops = on;
 }
